@@ -44,6 +44,7 @@ static std::string call_B(int kind)
         case 9: { TigaPropertyBuilder pb(doc); rc = parseProperty("E<> true\nA[] (1 + ", &pb, "/q"); break; }
         case 10: { TigaPropertyBuilder pb(doc); rc = parseProperty("A[] 1 < 2 /* ok */", &pb, "/q"); break; }
         // an old-syntax XML model whose first text block draws a diagnostic
+        case 12: rc = parse_XTA("int8_t small = 1; const int m = INT16_MAX - UINT8_MAX; double area = M_PI;\nprocess P() { state A; init A; }\nsystem P;", &doc, true); break;   // uses the built-in declarations every new-syntax text starts with
         case 11: { MModel m = small_model(false); m.gdecl = "int g; clock x; chan c; int x2[3], y2; const k 2 +;"; XmlDoc d = render_xml(m); rc = parse_xml(d, &doc, false); break; }
         }
     } catch (std::exception& e) { threw = true; }
@@ -77,9 +78,9 @@ static void call_A(int kind)
     } catch (...) {}
 }
 
-extern "C" void harness_history()  /* vf: bounds=12_observed_calls_x_18_intervening_calls(one-step_histories) reach=end */
+extern "C" void harness_history()  /* vf: bounds=13_observed_calls_x_18_intervening_calls(one-step_histories) reach=end */
 {
-    int b = vf_pick("!observed", 12), a = vf_pick("!intervening", 18);
+    int b = vf_pick("!observed", 13), a = vf_pick("!intervening", 18);
     std::string first = call_B(b);
     call_A(a);
     std::string again = call_B(b);
@@ -87,9 +88,9 @@ extern "C" void harness_history()  /* vf: bounds=12_observed_calls_x_18_interven
     vf_assert(first == again, "result-independent-of-earlier-parse");
     vf_reach("end");
 }
-extern "C" void harness_history2()  /* vf: tier=thorough bounds=12_observed_calls_x_18x18_two-step_histories reach=end */
+extern "C" void harness_history2()  /* vf: tier=thorough bounds=13_observed_calls_x_18x18_two-step_histories reach=end */
 {
-    int b = vf_pick("!observed", 12), a1 = vf_pick("!intervening1", 18), a2 = vf_pick("!intervening2", 18);
+    int b = vf_pick("!observed", 13), a1 = vf_pick("!intervening1", 18), a2 = vf_pick("!intervening2", 18);
     std::string first = call_B(b);
     call_A(a1); call_A(a2);
     std::string again = call_B(b);
